@@ -643,6 +643,67 @@ pub fn run_c18(run: &mut Run) -> Stats {
         }
         let _ = std::fs::remove_file(&path);
     }
+    // inside a real multi-threaded tokio runtime (where block_in_place really hands the worker's
+    // other tasks over, and where code that consults the runtime behaves differently): serve() and
+    // drain, several requests concurrently on one entity
+    {
+        let len: u64 = 200_001;
+        let path = base.join("in-runtime");
+        std::fs::write(&path, content_vec(0, len as usize)).unwrap();
+        let rt = tokio::runtime::Builder::new_multi_thread().worker_threads(2).enable_time().build().expect("runtime");
+        let crf = Crf::new(File::open(&path).unwrap(), HeaderMap::new()).unwrap();
+        let cases: Vec<(u64, u64)> = vec![(0, len), (5, 200_001), (65_535, 65_537), (100, 150), (0, 65_536), (131_071, 200_000)];
+        let results: Vec<((u64, u64), String)> = rt.block_on(async {
+            let mut hs = Vec::new();
+            for &(a, b) in &cases {
+                let crf = crf.clone();
+                hs.push(tokio::spawn(async move {
+                    let req = http::Request::builder().method("GET").header("range", format!("bytes={a}-{}", b - 1)).body(()).unwrap();
+                    let resp = http_serve::serve(crf, &req);
+                    let status = resp.status().as_u16();
+                    let mut body = Box::pin(resp.into_body());
+                    let mut got: Vec<u8> = Vec::new();
+                    let verdict = loop {
+                        let fut = std::future::poll_fn(|cx| body.as_mut().poll_frame(cx));
+                        match tokio::time::timeout(std::time::Duration::from_secs(5), fut).await {
+                            Err(_) => break "no frame within 5 s".to_string(),
+                            Ok(None) => break "end".to_string(),
+                            Ok(Some(Err(e))) => break format!("error: {}", e.text),
+                            Ok(Some(Ok(f))) => {
+                                if let Ok(d) = f.into_data() {
+                                    got.extend_from_slice(&d);
+                                }
+                                tokio::task::yield_now().await;
+                            }
+                        }
+                    };
+                    let ok = status == 206 && verdict == "end" && got == content_vec(a, (b - a) as usize);
+                    ((a, b), if ok { "ok".to_string() } else { format!("status {status}, {verdict}, {} bytes (correct content: {})", got.len(), got == content_vec(a, got.len().min((b - a) as usize))) })
+                }));
+            }
+            let mut out = Vec::new();
+            for h in hs {
+                match h.await {
+                    Ok(r) => out.push(r),
+                    Err(e) => out.push(((0, 0), format!("task panicked: {e}"))),
+                }
+            }
+            out
+        });
+        for ((a, b), verdict) in results {
+            st.evaluations += 1;
+            st.nontrivial(&("in-runtime", a, b));
+            let s0 = st.state(&("in-runtime", b - a > 65_536));
+            let s1 = st.state(&("in-runtime-result", verdict == "ok"));
+            st.transition(s0, 0, s1);
+            st.outcome(format!("inside-multi-thread-runtime/{}", if verdict == "ok" { "ok" } else { "bad" }));
+            if verdict != "ok" && prop == "C18" {
+                st.violation((1 << 57) + a, "inside-runtime".into(), format!("serve(bytes={a}-{}) of a {len}-byte file, drained inside a multi-threaded tokio runtime next to five other requests on the same entity: {verdict}", b - 1), || json!({"engine": "fs_mc", "what": "in-runtime"}));
+            }
+        }
+        drop(rt);
+        let _ = std::fs::remove_file(&path);
+    }
     // two live streams of ONE entity, polled alternately (an entity is "cheap to clone and reuse
     // for many requests"): each must still yield exactly its own range
     {
@@ -851,6 +912,16 @@ thread_local! {
     static SECRET_ABS: std::cell::RefCell<String> = const { std::cell::RefCell::new(String::new()) };
 }
 
+fn panic_msg_ref(p: &Box<dyn std::any::Any + Send>) -> String {
+    if let Some(s) = p.downcast_ref::<&str>() {
+        s.to_string()
+    } else if let Some(s) = p.downcast_ref::<String>() {
+        s.clone()
+    } else {
+        "<non-string panic>".into()
+    }
+}
+
 fn tree_secret_abs() -> String {
     SECRET_ABS.with(|s| s.borrow().clone())
 }
@@ -874,6 +945,31 @@ pub fn run_c19(run: &mut Run) -> Stats {
     run.bounds = json!({"max_segments": kmax, "segments": SEGS, "accept_encodings": AES.len()});
     run.assumptions.push("std::fs on the sandbox file system is the reference; no symlinks in the tree (the crate documents that it does not check them)".into());
     let tree = build_tree();
+    // The base directory itself must open (under the watchdog: a constructor that loops is a
+    // finding, too). Without it nothing else can be judged.
+    {
+        let base = tree.base.clone();
+        let case: crate::report::CaseFn = Box::new(move || json!({"engine": "fs_mc", "what": "for_path", "path": base.to_string_lossy()}));
+        let opened = crate::report::watched(case, || catch_unwind(AssertUnwindSafe(|| http_serve::dir::FsDir::builder().auto_gzip(true).for_path(&tree.base).map(|_| ()))));
+        let problem = match opened {
+            Ok(Ok(())) => None,
+            Ok(Err(e)) => Some(format!("failed: {e}")),
+            Err(p) => Some(format!("panicked: {}", panic_msg(p))),
+        };
+        if let Some(msg) = problem {
+            let mut st = Stats::new();
+            st.evaluations = 1;
+            let s0 = st.state(&"for_path");
+            let s1 = st.state(&"for_path-failed");
+            st.transition(s0, 0, s1);
+            st.nontrivial(&"for_path");
+            st.nontrivial(&"for_path-failed");
+            if run.prop == "C19" {
+                st.violation(0, "base-directory-does-not-open".into(), format!("FsDir::builder().for_path({:?}) on an existing directory {msg}: no path below it can be opened", tree.base), || json!({"engine": "fs_mc", "what": "for_path"}));
+            }
+            return st;
+        }
+    }
     // Which error kinds does this build use to refuse hostile paths? (The statement does not fix
     // the kind; a path that is NOT hostile must not be refused in that way, though.)
     let reject_kinds: std::sync::Mutex<std::collections::HashSet<std::io::ErrorKind>> = Default::default();
@@ -916,6 +1012,11 @@ pub fn run_c19(run: &mut Run) -> Stats {
     for tail in ["abc", "abc.gz", "missing", "", ".."] {
         paths.push(format!("{deep}/{tail}"));
     }
+    // longer than PATH_MAX (4096) in total, and just below it
+    paths.push(format!("{}a", "sub/../".repeat(600)));
+    paths.push(format!("{}a", "./".repeat(2045)));
+    paths.push(format!("{}a", "./".repeat(2100)));
+    paths.push(format!("{}missing", "sub/sub/../../".repeat(300)));
     // every file of the tree by name (also names ending in .gz), plus a few names that do not exist
     for extra in ["orphan", "orphan.gz", "sub/orphan2", "sub/orphan2/", "orphan/", "a.gz", "a.gz.gz", "a.gz.gz.gz", "sub/b.tar.gz", "sub/b.tar.gz.gz", "sub/b.tar", "empty", "empty.gz", "e2", "e2.gz", "with space", "with space.gz", "caf\u{e9}", "caf\u{e9}.gz", "caf\u{e8}", "..\\secret", "a\\..\\a", "%2e%2e", "%2e%2e/secret", "secret.gz", "a...gz", "sub/a.gz", "sub/a.gz/", "sub/sub/a.gz", "a.GZ", "a.gz/", ".gz", "sub/.gz"] {
         paths.push(extra.to_string());
@@ -928,11 +1029,57 @@ pub fn run_c19(run: &mut Run) -> Stats {
     paths.sort();
     paths.dedup();
     run.extra.insert("base_paths".into(), json!(paths.len()));
+    // Other runtime contexts than the current-thread runtime of the sweep below: a worker of a
+    // multi-threaded runtime, its block_on thread, and a LocalSet on it. A handful of lookups,
+    // compared with the sweep's own reference (same inode, same error kind).
+    let mut ctx_stats = Stats::new();
+    {
+        let rt = tokio::runtime::Builder::new_multi_thread().worker_threads(2).enable_time().build().expect("runtime");
+        let d = http_serve::dir::FsDir::builder().auto_gzip(true).for_path(&tree.base).expect("open base");
+        let mut gz = HeaderMap::new();
+        gz.insert("accept-encoding", http::HeaderValue::from_static("gzip"));
+        let lookups: Vec<(&str, bool)> = vec![("a", true), ("sub/a", false), ("missing", false), ("sub", false), ("a/../a", false), ("sub/sub/a", true)];
+        for ctx in ["block_on", "worker", "local-set", "local-set/spawn_local"] {
+            for (p, with_gz) in &lookups {
+                let hdrs = if *with_gz { gz.clone() } else { HeaderMap::new() };
+                let (d2, p2, h2) = (d.clone(), p.to_string(), hdrs.clone());
+                let r = catch_unwind(AssertUnwindSafe(|| match ctx {
+                    "block_on" => rt.block_on(async { d2.get(&p2, &h2).await.map(|n| (n.metadata().dev(), n.metadata().ino(), n.encoding().is_some())).map_err(|e| e.kind()) }),
+                    "worker" => rt.block_on(async { tokio::spawn(async move { d2.get(&p2, &h2).await.map(|n| (n.metadata().dev(), n.metadata().ino(), n.encoding().is_some())).map_err(|e| e.kind()) }).await.expect("task") }),
+                    "local-set" => {
+                        let ls = tokio::task::LocalSet::new();
+                        ls.block_on(&rt, async { d2.get(&p2, &h2).await.map(|n| (n.metadata().dev(), n.metadata().ino(), n.encoding().is_some())).map_err(|e| e.kind()) })
+                    }
+                    _ => {
+                        let ls = tokio::task::LocalSet::new();
+                        ls.block_on(&rt, async { tokio::task::spawn_local(async move { d2.get(&p2, &h2).await.map(|n| (n.metadata().dev(), n.metadata().ino(), n.encoding().is_some())).map_err(|e| e.kind()) }).await.expect("task") })
+                    }
+                }));
+                ctx_stats.evaluations += 1;
+                ctx_stats.nontrivial(&("ctx", ctx, p, with_gz));
+                // reference: the same call under the current-thread runtime
+                let rt0 = tokio::runtime::Builder::new_current_thread().build().expect("runtime");
+                let want = rt0.block_on(async { d.clone().get(p, &hdrs).await.map(|n| (n.metadata().dev(), n.metadata().ino(), n.encoding().is_some())).map_err(|e| e.kind()) });
+                let verdict = match &r {
+                    Err(pn) => format!("panicked: {}", panic_msg_ref(pn)),
+                    Ok(got) if *got == want => "ok".to_string(),
+                    Ok(got) => format!("{got:?}, but {want:?} under a current-thread runtime"),
+                };
+                let s0 = ctx_stats.state(&("ctx", ctx));
+                let s1 = ctx_stats.state(&("ctx-result", verdict == "ok"));
+                ctx_stats.transition(s0, 0, s1);
+                ctx_stats.outcome(format!("runtime-context/{}", if verdict == "ok" { "ok" } else { "bad" }));
+                if verdict != "ok" && run.prop == "C19" {
+                    ctx_stats.violation((1 << 56) + ctx.len() as u64, format!("runtime-context:{ctx}"), format!("FsDir::get({p:?}) called from {ctx} of a multi-threaded tokio runtime: {verdict}"), || json!({"engine": "fs_mc", "what": "runtime-context", "context": ctx, "path": p}));
+                }
+            }
+        }
+    }
     let prop = run.prop.clone();
     let nthreads = threads();
     let chunk = paths.len().div_ceil(nthreads * 4);
     let nchunks = paths.len().div_ceil(chunk);
-    par_for(nchunks as u64, nthreads, |ci, st| {
+    let mut total = par_for(nchunks as u64, nthreads, |ci, st| {
         let rt = tokio::runtime::Builder::new_current_thread().build().expect("runtime");
         let dirs = [
             http_serve::dir::FsDir::builder().auto_gzip(false).for_path(&tree.base).expect("open base"),
@@ -969,11 +1116,21 @@ pub fn run_c19(run: &mut Run) -> Stats {
                         if let Some(a) = ae {
                             hdrs.insert("accept-encoding", http::HeaderValue::from_static(a));
                         }
-                        let r = catch_unwind(AssertUnwindSafe(|| rt.block_on(fsdir.clone().get(p, &hdrs))));
+                        let (pc, aec) = (p.clone(), ae.map(|a| a.to_string()));
+                        let case: crate::report::CaseFn = Box::new(move || json!({"engine": "fs_mc", "what": "get", "path": crate::report::bytes_json(pc.as_bytes()), "accept_encoding": aec, "auto_gzip": auto_gzip}));
+                        let r = crate::report::watched(case, || catch_unwind(AssertUnwindSafe(|| rt.block_on(fsdir.clone().get(p, &hdrs)))));
                         st.evaluations += 1;
                         st.nontrivial(&(p, ai, gi));
                         let mut fs: Vec<Finding> = Vec::new();
                         let reject = lexical_reject(p);
+                        // The reference opens base + "/" + path by its ABSOLUTE name, FsDir opens
+                        // the path relative to a directory handle: between the two lies a band of
+                        // lengths (just under PATH_MAX = 4096) where only the reference fails.
+                        // There only containment, rejection and totality are judged.
+                        let ref_unavailable = p.len() + 4 < 4096 && tree.base.as_os_str().len() + 1 + p.len() + 4 >= 4096;
+                        if ref_unavailable {
+                            st.count("paths_where_the_absolute_reference_exceeds_PATH_MAX", 1);
+                        }
                         let outcome;
                         match r {
                             Err(pn) => {
@@ -985,7 +1142,7 @@ pub fn run_c19(run: &mut Run) -> Stats {
                                 if reject {
                                     // "returns an error": the statement does not say which kind
                                     st.count(&format!("reject_kind:{:?}", e.kind()), 1);
-                                } else if !p.is_empty() {
+                                } else if !p.is_empty() && !ref_unavailable {
                                     // must fail the way opening that file fails
                                     match std::fs::metadata(tree.base.join(p)) {
                                         Ok(_) => {
@@ -1026,7 +1183,7 @@ pub fn run_c19(run: &mut Run) -> Stats {
                                 }
                                 if reject {
                                     fs.push(fnd(&["C19"], "accepted-hostile", format!("{p:?} (absolute / NUL / '..' segment) was accepted")));
-                                } else if !p.is_empty() {
+                                } else if !p.is_empty() && !ref_unavailable {
                                     let plain = std::fs::metadata(tree.base.join(p));
                                     let gz = std::fs::metadata(tree.base.join(format!("{p}.gz")));
                                     let pref = prefers_gzip(ae.map(|a| a.as_bytes()));
@@ -1053,6 +1210,25 @@ pub fn run_c19(run: &mut Run) -> Stats {
                                     if vary != auto_gzip {
                                         fs.push(fnd(&["C19"], "vary-header", format!("get({p:?}): Vary: accept-encoding = {vary}, auto_gzip = {auto_gzip}")));
                                     }
+                                    // ... also when the map already holds entries of its own
+                                    let mut h2 = HeaderMap::new();
+                                    h2.insert("vary", http::HeaderValue::from_static("origin"));
+                                    h2.insert("cache-control", http::HeaderValue::from_static("max-age=60"));
+                                    node.add_encoding_headers(&mut h2);
+                                    let vary2 = h2.get_all("vary").iter().any(|v| String::from_utf8_lossy(v.as_bytes()).to_ascii_lowercase().split(',').any(|t| t.trim() == "accept-encoding"));
+                                    let ce2 = h2.get("content-encoding").map(|v| v.as_bytes() == b"gzip").unwrap_or(false);
+                                    if vary2 != auto_gzip || ce2 != subst {
+                                        fs.push(fnd(&["C19"], "vary-header", format!("get({p:?}): add_encoding_headers on a map that already holds `Vary: origin`: Vary names accept-encoding = {vary2} (auto_gzip = {auto_gzip}), Content-Encoding gzip = {ce2} (substitution = {subst})")));
+                                    }
+                                    if node.encoding_varies() != auto_gzip {
+                                        fs.push(fnd(&["C19"], "vary-header", format!("get({p:?}): encoding_varies() = {}, auto_gzip = {auto_gzip}", node.encoding_varies())));
+                                    }
+                                    // the handle the node gives out is the file its metadata describes
+                                    let f = node.into_file();
+                                    match f.metadata() {
+                                        Ok(fm) if (fm.dev(), fm.ino()) == id => {}
+                                        other => fs.push(fnd(&["C19"], "wrong-file", format!("get({p:?}): into_file() is not the file metadata() describes ({:?} vs {id:?})", other.map(|m| (m.dev(), m.ino())).ok()))),
+                                    }
                                 }
                             }
                         }
@@ -1070,7 +1246,9 @@ pub fn run_c19(run: &mut Run) -> Stats {
                 }
             }
         }
-    })
+    });
+    total.merge(ctx_stats);
+    total
 }
 
 pub fn replay(case: &serde_json::Value, prop: &str) -> i32 {
